@@ -7,7 +7,6 @@ import (
 	"os"
 
 	"github.com/go-git/go-billy/v5"
-	"github.com/go-git/go-billy/v5/util"
 )
 
 var ErrClockNotExist = errors.New("clock doesn't exist")
@@ -106,5 +105,27 @@ func (pc *PersistedClock) read() error {
 
 func (pc *PersistedClock) Write() error {
 	data := []byte(fmt.Sprintf("%d", pc.counter))
-	return util.WriteFile(pc.root, pc.filePath, data, 0644)
+
+	// Write into a temporary file and rename it over the clock file, so that a process dying
+	// in the middle never leaves a truncated (unreadable, or silently lower) clock behind.
+	// The temporary file is not created next to the clock files, as every file there is a clock.
+	f, err := pc.root.TempFile("", "clock")
+	if err != nil {
+		return err
+	}
+
+	_, err = f.Write(data)
+	if err != nil {
+		_ = f.Close()
+		_ = pc.root.Remove(f.Name())
+		return err
+	}
+
+	err = f.Close()
+	if err != nil {
+		_ = pc.root.Remove(f.Name())
+		return err
+	}
+
+	return pc.root.Rename(f.Name(), pc.filePath)
 }
